@@ -634,6 +634,12 @@ pub trait TypeVisitor {
 /// Instantiate the library type described by `p` (serial gadgets) and hand it to the visitor.
 /// Returns Err if the constructor refused the parameters.
 pub fn with_type<V: TypeVisitor>(ctx: &mut Ctx, p: &Params, v: &mut V) -> Result<(), String> {
+    with_type_ex(ctx, p, v, false)
+}
+
+/// As `with_type`; with `mt` the four chunked circuits are instantiated over the rayon-based
+/// `ParallelSumMultithreaded` gadget (the circuits behind the `Prio3*Multithreaded` aliases).
+pub fn with_type_ex<V: TypeVisitor>(ctx: &mut Ctx, p: &Params, v: &mut V, mt: bool) -> Result<(), String> {
     macro_rules! go {
         ($t:ty) => {{
             let typ = <$t as Kinded>::build(p).map_err(|e| e.to_string())?;
@@ -642,6 +648,19 @@ pub fn with_type<V: TypeVisitor>(ctx: &mut Ctx, p: &Params, v: &mut V) -> Result
         }};
     }
     let f64_ = p.p == P64;
+    if mt {
+        match (p.kind, f64_) {
+            (Kind::SumVec, true) => return go!(SumVec<Field64, ParallelSumMultithreaded<Field64, Mul>>),
+            (Kind::SumVec, false) => return go!(SumVec<Field128, ParallelSumMultithreaded<Field128, Mul>>),
+            (Kind::Histogram, true) => return go!(Histogram<Field64, ParallelSumMultithreaded<Field64, Mul>>),
+            (Kind::Histogram, false) => return go!(Histogram<Field128, ParallelSumMultithreaded<Field128, Mul>>),
+            (Kind::Multihot, true) => return go!(MultihotCountVec<Field64, ParallelSumMultithreaded<Field64, Mul>>),
+            (Kind::Multihot, false) => return go!(MultihotCountVec<Field128, ParallelSumMultithreaded<Field128, Mul>>),
+            (Kind::L1BoundSum, true) => return go!(L1BoundSum<Field64, ParallelSumMultithreaded<Field64, Mul>>),
+            (Kind::L1BoundSum, false) => return go!(L1BoundSum<Field128, ParallelSumMultithreaded<Field128, Mul>>),
+            _ => {}
+        }
+    }
     match (p.kind, f64_) {
         (Kind::Count, true) => go!(Count<Field64>),
         (Kind::Count, false) => go!(Count<Field128>),
@@ -715,8 +734,13 @@ impl<V: Prio3Visitor> TypeVisitor for Bridge<'_, V> {
 
 /// Instantiate `Prio3<T, P, 32>` for (`p`, `cfg`) through the generic public constructor.
 pub fn with_prio3<V: Prio3Visitor>(ctx: &mut Ctx, p: &Params, cfg: &VdafCfg, v: &mut V) -> Result<(), String> {
+    with_prio3_ex(ctx, p, cfg, v, false)
+}
+
+/// As `with_prio3`; with `mt` over the multithreaded gadget (see `with_type_ex`).
+pub fn with_prio3_ex<V: Prio3Visitor>(ctx: &mut Ctx, p: &Params, cfg: &VdafCfg, v: &mut V, mt: bool) -> Result<(), String> {
     let mut b = Bridge { v, cfg, err: None };
-    with_type(ctx, p, &mut b)?;
+    with_type_ex(ctx, p, &mut b, mt)?;
     match b.err {
         Some(e) => Err(e),
         None => Ok(()),
